@@ -81,3 +81,21 @@ Example C02_nonvacuous :
       (snd (walk Q qltb 10 None None [b3; b1; b2; b4] [mkO 9 1 0 false (Some (100#1)) 4 3 None] None [])) =
   [(3, 1); (1, 2); (2, 1)].
 Proof. vm_compute. repeat split; repeat constructor. Qed.
+
+
+Require Import Pams.Sim Pams.SimInv Pams.SimBooks.
+
+(* IN EVERY SIMULATION (theories/SimBooks.v): for every configuration, tape of runner decisions, agent behaviour and set of events whose
+   accepted orders have positive volume and time-to-live, both books of every market are sorted by that ranking with distinct ids at the
+   end of the run - and at every atomic update on the way (the invariant is lifted through the whole runner) - so the order the matching
+   walk takes first is always the one with the highest priority, and the prefix theorem above applies to every round of every run. *)
+Theorem C02_books_of_every_simulation_are_priority_sorted : forall c tape batches funds,
+  let s := run c tape batches funds in
+  valid_tr s -> forall x, In x (s_markets s) ->
+  sortedq (m_buys (mk_m x)) /\ sortedq (m_sells (mk_m x)) /\
+  NoDup (map (@oid Q) (m_buys (mk_m x))) /\ NoDup (map (@oid Q) (m_sells (mk_m x))).
+Proof.
+  intros c tape batches funds s V x Hx.
+  destruct (markets_of_a_run_are_well_formed c tape batches funds V x Hx) as [[[? ? ?] [? ? ?]] _]. auto.
+Qed.
+Print Assumptions C02_books_of_every_simulation_are_priority_sorted.
